@@ -46,7 +46,7 @@ PROPS = {
         ],
         "oracle_prefixes": ["c03", "glue"],
         "abnormal_binding": False,
-        "explanation": "Proved: keyword lower-casing, trimming and the blank-line clamp are fixpoints; emitted line breaks are read back "
+        "explanation": "Proved: keyword lower-casing, trimming, the blank-line clamp, the line-comment rule, the compiler-directive rule and the whole comment formatter are fixpoints; emitted line breaks are read back "
                        "as the same count. The composition needs the wrapper to be a function of layout-independent facts (C06) and "
                        "ReflowFresh (false for child lines: known finding F10): the format-twice oracle runs on every well-formed case.",
         "assumptions": ["WrapDeterministic, ParserKindsOnly, AllSolved, ReflowFresh are oracle-checked contracts (partial)"],
